@@ -30,8 +30,8 @@ MANIFEST = {
     'technique': 'deductive: VCs from the real AST of the TrajectoryMetrics methods, relational/induction lemmas over the proved formulas; z3/cvc5; '
                  'native replay; random trajectories with scale factors as bounded stand-in',
 }
-UNITS = ['unit_formulas', 'unit_center_of_mass', 'unit_speed_freq', 'unit_amplitudes', 'unit_std', 'unit_lemmas', 'unit_dependencies']
-BOUNDED = ['bounded_metrics', 'bounded_purity']
+UNITS = ['unit_formulas', 'unit_center_of_mass', 'unit_speed_freq', 'unit_amplitudes', 'unit_std', 'unit_lemmas', 'unit_dependencies', 'unit_plumbing']
+BOUNDED = ['bounded_metrics', 'bounded_purity', 'bounded_plumbing']
 META = {'clauses': {'formulas': 'P', 'scaling': 'P (lemmas over the formulas) + A (periodogram homogeneity)', 'amplitudes partition': 'P (loop invariant over the real splitting + telescoping lemmas)',
                     'identical motion => Haven 1': 'P (lemma) + B'},
         'not_decided': ['meanfreq / periodogram internals (assumed homogeneity), numpy.array_split contract (assumed; its preconditions are obligations)']}
@@ -604,3 +604,14 @@ from verif.native.purity import make_bounded as _make_purity  # noqa: E402
 from verif.props.purity_reg import REG as _PURITY_REG  # noqa: E402
 PURITY = _PURITY_REG['C14']
 bounded_purity = _make_purity('C14', PURITY)
+
+
+# plumbing around the anchored functions: forwarding contracts of the public wrappers, no state shared between calls or objects
+from verif.props import plumbing as _plumbing  # noqa: E402
+
+
+def unit_plumbing(tier):
+    return _plumbing.unit_plumbing(PROPERTY)
+
+
+bounded_plumbing = _plumbing.make_bounded(PROPERTY)
